@@ -26,10 +26,10 @@ ASSUMPTIONS = ['brute-force float64 distance matrix is the oracle; ties '
 def shards(tier):
     if tier == 'quick':
         return [dict(kind='assign', n=3000, parts=15, timeout=900),
-                dict(kind='batch', n=4, parts=1, timeout=900,
+                dict(kind='batch', n=32, parts=4, timeout=900,
                      env={'OMP_NUM_THREADS': 1})]
     return [dict(kind='assign', n=90000, parts=14, timeout=3400),
-            dict(kind='batch', n=120, parts=2, timeout=3400,
+            dict(kind='batch', n=400, parts=4, timeout=3400,
                  env={'OMP_NUM_THREADS': 1})]
 
 
@@ -288,7 +288,7 @@ def run_batch(ctx, rng, idx):
     tmp = tempfile.mkdtemp(prefix='vf-c10-', dir=os.environ.get('VF_RUNDIR'))
     try:
         n_atoms = int(rng.integers(4, 9))
-        nfiles = int(rng.integers(2, 7))
+        nfiles = int(rng.integers(2, 10))
         lens = [int(x) for x in rng.integers(1, 25, size=nfiles)]
         if rng.random() < 0.3:
             lens = [lens[0]] * nfiles
@@ -305,7 +305,12 @@ def run_batch(ctx, rng, idx):
         centers = md.Trajectory(allx[cidx].copy(), trajgen.topology(n_atoms))
         # memory fraction such that a batch holds ~max(lens)..sum(lens) frames
         per_frame = n_atoms * 3 * 4
-        want = int(rng.integers(max(lens) + 1, sum(lens) + 2))
+        # batch capacity between "one long trajectory" and "everything": small
+        # capacities give many batches with free room left in the early ones
+        if rng.random() < 0.6:
+            want = int(rng.integers(max(lens) + 1, 2 * max(lens) + 2))
+        else:
+            want = int(rng.integers(max(lens) + 1, sum(lens) + 2))
         frac = (want + 0.5) * per_frame / psutil.virtual_memory().total
         desc = {'lengths': lens, 'n_atoms': n_atoms, 'n_centers': len(cidx),
                 'batch_frames': want}
